@@ -15,14 +15,15 @@ let run_case (line : string) : string =
   let pfxs = ref [] in
   Stdlib.List.iter (fun it -> match it with
       | "p" :: t :: rest ->
-          let u = Eng_c09.update_of rest in
+          (* RibConc.effective = map eff_update, applied here item by item (the extracted map is not tail-recursive; logs have 10^5..10^6 Updates) *)
+          let u = RibConc.eff_update (Eng_c09.update_of rest) in
           pfxs := Stdlib.List.rev_append (Eng_c09.prefixes_of u) !pfxs;
           let t = int_of_string t in progs.(t) <- u :: progs.(t)
       | ["q"; _; p] -> pfxs := int_of_string p :: !pfxs
       | _ -> ()) items;
   (* progs.(t) is reversed; build thread 0's updates first, tail-recursively *)
   let all = Array.fold_right (fun p acc -> Stdlib.List.rev_append p acc) progs [] in
-  let r = rib_run (RibConc.effective all) in
+  let r = rib_run all in
   let ps = Stdlib.List.sort_uniq compare !pfxs in
   let out = ref ["F"] in
   Stdlib.List.iter (fun af -> Stdlib.List.iter (fun p -> out := Eng_c09.show_query r af p :: !out) ps) [0; 1];
